@@ -448,7 +448,14 @@ class G:
         if pf.get('feedback') and self.chance(0.15):
             # feedback template: src -> unique -> map(x -> (x+1, x+2) while x < K) -> flatten -> back into src
             src = 0
-            if self.chance(0.3):
+            if n_entries >= 2 and self.chance(0.3):
+                # a combiner inside the cycle (the recurrence x[n+1] = f(x[n], b[n])):
+                # src0, src1 -> zip -> map(bounded int) -> unique -> back into src0
+                z = self.add({'op': 'zip', 'up': [0, 1]}, ('fix', (INT, INT)))
+                g = self.add({'op': 'map', 'up': [z], 'fn': ['wcap', self.pick([3, 5, 8])]}, INT)
+                u = self.add({'op': 'unique', 'up': [g]}, INT)
+                feedback.append({'from': u, 'to': src})
+            elif self.chance(0.3):
                 # a stateful node inside the cycle: src -> accumulate(bounded total) -> unique -> back into src;
                 # every emission of the accumulator re-enters it before its own _emit has returned
                 node = {'op': 'accumulate', 'up': [src], 'fn': ['addcap', self.pick([3, 5, 8])]}
